@@ -24,6 +24,7 @@ import (
 	kapiv1 "k8s.io/api/core/v1"
 	networkingv1 "k8s.io/api/networking/v1"
 	metav1 "k8s.io/apimachinery/pkg/apis/meta/v1"
+	k8slabels "k8s.io/apimachinery/pkg/labels"
 	"k8s.io/apimachinery/pkg/util/intstr"
 
 	"github.com/projectcalico/api/pkg/lib/numorstring"
@@ -907,23 +908,54 @@ func main() {
 		}
 		nnp := 1 + r.intn(2)
 		for j := 0; j < nnp; j++ {
-			w.nps = append(w.nps, genNP(r, j, tags))
+			np := genNP(r, j, tags)
+			if r.chance(80) {
+				np.Namespace = w.pods[r.intn(len(w.pods))].pod.Namespace // a namespace that has pods
+			}
+			w.nps = append(w.nps, np)
 		}
 		if *malformed && r.chance(6) {
 			malform(r, w.nps[r.intn(len(w.nps))])
 			tags["malformed"] = true
 		}
+		if r.chance(8) {
+			// a pod CARRYING labels in the reserved pcns./pcsa. space that no Kubernetes selector refers to: the
+			// workload-endpoint processor must drop them, or the pod could pose as living in another namespace
+			pod := w.pods[r.intn(len(w.pods))].pod
+			for _, k := range []string{"team", "env", "in", "kubernetes.io/metadata.name"} {
+				if r.chance(60) {
+					pod.Labels["pcns."+k] = pick(r, nsVals[k])
+				}
+			}
+			pod.Labels["pcsa.team"] = "a"
+			tags["pod:pcns-labels"] = true
+		}
+		var resPod *kapiv1.Pod
+		resKey := ""
 		if *reserved && r.chance(3) {
 			// a Calico-reserved key used as an ordinary Kubernetes label (dedicated cases, see known-findings.txt)
-			k := pick(r, []string{"pcns.tier", "pcsa.role", "projectcalico.org/namespace", "projectcalico.org/orchestrator"})
-			pi := w.pods[r.intn(len(w.pods))]
-			pi.pod.Labels[k] = "db"
-			w.nps[0].Namespace = pi.pod.Namespace
-			w.nps[0].Spec.PodSelector = metav1.LabelSelector{MatchLabels: map[string]string{k: "db"}}
+			resKey = pick(r, []string{"pcns.tier", "pcns.team", "pcsa.role", "projectcalico.org/namespace", "projectcalico.org/orchestrator"})
+			resPod = w.pods[r.intn(len(w.pods))].pod
+			resPod.Labels[resKey] = "a"
+			w.nps[0].Namespace = resPod.Namespace
+			w.nps[0].Spec.PodSelector = metav1.LabelSelector{MatchLabels: map[string]string{resKey: "a"}}
 			tags["reserved-key"] = true
 		}
+		// pods in the namespace of some policy (the ones a policy can isolate)
+		var governed []int
+		for i, pi := range w.pods {
+			for _, np := range w.nps {
+				if np.Namespace == pi.pod.Namespace {
+					governed = append(governed, i)
+					break
+				}
+			}
+		}
 		genEnd := func() (int, net.IP) {
-			if r.chance(70) {
+			if len(governed) > 0 && r.chance(45) {
+				return pick(r, governed), nil
+			}
+			if r.chance(55) {
 				return r.intn(len(w.pods)), nil
 			}
 			return -1, net.ParseIP(pick(r, extIPs))
@@ -947,7 +979,132 @@ func main() {
 				}
 			}
 		}
-		for j := 0; j < 16; j++ {
+		// "directed" connections: aimed at one rule of one policy (local pod selected by the policy, remote end
+		// chosen to satisfy one peer, port taken from one port entry), so that allowed-by-a-rule verdicts are
+		// frequent.  The Kubernetes label-selector library is used for AIMING only, never for the oracle.
+		selMatches := func(sel *metav1.LabelSelector, lbls map[string]string) bool {
+			if sel == nil {
+				return true
+			}
+			x, err := metav1.LabelSelectorAsSelector(sel)
+			return err == nil && x.Matches(k8slabels.Set(lbls))
+		}
+		nsLabels := map[string]map[string]string{}
+		for _, ns := range w.nss {
+			nsLabels[ns.Name] = ns.Labels
+		}
+		protoNum := map[kapiv1.Protocol]int{kapiv1.ProtocolTCP: 6, kapiv1.ProtocolUDP: 17, kapiv1.ProtocolSCTP: 132, "": 6}
+		directed := func() (connSpec, bool) {
+			np := w.nps[r.intn(len(w.nps))]
+			ingress := r.chance(50)
+			var peers []networkingv1.NetworkPolicyPeer
+			var ports []networkingv1.NetworkPolicyPort
+			if ingress {
+				if len(np.Spec.Ingress) == 0 {
+					return connSpec{}, false
+				}
+				x := np.Spec.Ingress[r.intn(len(np.Spec.Ingress))]
+				peers, ports = x.From, x.Ports
+			} else {
+				if len(np.Spec.Egress) == 0 {
+					return connSpec{}, false
+				}
+				x := np.Spec.Egress[r.intn(len(np.Spec.Egress))]
+				peers, ports = x.To, x.Ports
+			}
+			var locals []int
+			for i, pi := range w.pods {
+				if pi.pod.Namespace == np.Namespace && selMatches(&np.Spec.PodSelector, pi.pod.Labels) {
+					locals = append(locals, i)
+				}
+			}
+			if len(locals) == 0 {
+				return connSpec{}, false
+			}
+			local := pick(r, locals)
+			remote, remoteIP := genEnd()
+			if len(peers) > 0 {
+				pe := peers[r.intn(len(peers))]
+				if pe.IPBlock != nil {
+					_, cidr, _ := net.ParseCIDR(pe.IPBlock.CIDR)
+					var cands []net.IP
+					for _, e := range extIPs {
+						cands = append(cands, net.ParseIP(e))
+					}
+					inExcept := func(ip net.IP) bool {
+						for _, ex := range pe.IPBlock.Except {
+							if _, n, err := net.ParseCIDR(ex); err == nil && n.Contains(ip) {
+								return true
+							}
+						}
+						return false
+					}
+					for _, ip := range cands {
+						if cidr != nil && cidr.Contains(ip) && (!inExcept(ip) || r.chance(25)) {
+							remote, remoteIP = -1, ip
+							break
+						}
+					}
+					for i, pi := range w.pods {
+						if cidr != nil && cidr.Contains(pi.ip) && !inExcept(pi.ip) && r.chance(30) {
+							remote, remoteIP = i, nil
+						}
+					}
+				} else {
+					var cands []int
+					for i, pi := range w.pods {
+						nsOK := pi.pod.Namespace == np.Namespace
+						if pe.NamespaceSelector != nil {
+							nsOK = selMatches(pe.NamespaceSelector, nsLabels[pi.pod.Namespace])
+						}
+						if nsOK && selMatches(pe.PodSelector, pi.pod.Labels) {
+							cands = append(cands, i)
+						}
+					}
+					if len(cands) > 0 {
+						remote, remoteIP = pick(r, cands), nil
+					}
+				}
+			}
+			c := connSpec{proto: pick(r, []int{6, 6, 17, 132}), port: pick(r, portNums)}
+			if ingress {
+				c.src, c.srcIP, c.dst = remote, remoteIP, local
+			} else {
+				c.src, c.dst, c.dstIP = local, remote, remoteIP
+			}
+			if len(ports) > 0 {
+				pp := ports[r.intn(len(ports))]
+				if pp.Protocol != nil {
+					c.proto = protoNum[*pp.Protocol]
+				} else {
+					c.proto = 6
+				}
+				if pp.Port != nil && pp.Port.Type == intstr.Int {
+					c.port = int(pp.Port.IntVal)
+					if pp.EndPort != nil && int(*pp.EndPort) >= c.port {
+						span := int(*pp.EndPort) - c.port + 1
+						if span > 8 && r.chance(70) {
+							span = 8
+						}
+						c.port += r.intn(span)
+					}
+				} else if pp.Port != nil && c.dst >= 0 {
+					for _, cp := range w.pods[c.dst].pod.Spec.Containers[0].Ports {
+						if cp.Name == pp.Port.StrVal && protoNum[cp.Protocol] == c.proto {
+							c.port = int(cp.ContainerPort)
+						}
+					}
+				}
+			}
+			return c, true
+		}
+		for j := 0; j < 6; j++ {
+			if c, ok := directed(); ok {
+				w.conns = append(w.conns, c)
+				tags["conn:directed"] = true
+			}
+		}
+		for j := 0; j < 12; j++ {
 			proto := pick(r, []int{6, 6, 6, 17, 17, 132, 1})
 			port := pick(r, portNums)
 			if r.chance(30) {
@@ -968,5 +1125,28 @@ func main() {
 			w.conns = append(w.conns, c)
 		}
 		emit(w, tags)
+
+		// Twin of a case that belongs to a known-finding class: the same world with the construct of that class
+		// neutralised (policyTypes filled in as the API server would; the reserved key replaced by an ordinary
+		// one).  The twin carries no class tag, so any OTHER failure hidden behind a known finding still shows.
+		if tags["reserved-key"] || tags["types:absent-with-egress"] {
+			if resPod != nil {
+				delete(resPod.Labels, resKey)
+				resPod.Labels["zone"] = "a"
+				w.nps[0].Spec.PodSelector = metav1.LabelSelector{MatchLabels: map[string]string{"zone": "a"}}
+			}
+			for _, np := range w.nps {
+				if len(np.Spec.PolicyTypes) == 0 && len(np.Spec.Egress) > 0 {
+					np.Spec.PolicyTypes = []networkingv1.PolicyType{networkingv1.PolicyTypeIngress, networkingv1.PolicyTypeEgress}
+				}
+			}
+			t2 := map[string]bool{"twin": true}
+			for t := range tags {
+				if t != "reserved-key" && t != "types:absent-with-egress" {
+					t2[t] = true
+				}
+			}
+			emit(w, t2)
+		}
 	}
 }
